@@ -833,6 +833,7 @@ func gSymbolRanges(c *Ctx, rule string) {
 		for _, path := range g.Paths(gf) {
 			var firstEmit, lastEmit *Emit
 			var fromSrc, toSrc types.Object
+			takenFromOK := map[types.Object]bool{}
 			var sym *SymAdd
 			afterSym := false
 			for _, nd := range path {
@@ -851,6 +852,18 @@ func gSymbolRanges(c *Ctx, rule string) {
 						afterSym = true
 					}
 				case RangeSet:
+					if nd.Field == "From@taken" {
+						// a local takes r.From now: good if this is right after the first emission and r is its range
+						takenFromOK[nd.Src] = firstEmit != nil && lastEmit == firstEmit && (lastEmit.Res == nd.Src || lastEmit.ResAlso == nd.Src)
+						continue
+					}
+					if nd.Field == "To@taken" {
+						continue
+					}
+					if nd.Field == "From" && nd.Alias && takenFromOK[nd.Src] {
+						fromSrc = nd.Src
+						continue
+					}
 					if nd.Field == "From" {
 						fromSrc = nd.Src
 						if firstEmit != nil && lastEmit != firstEmit {
